@@ -232,7 +232,7 @@ func init() {
 		Floors: map[string]int{"patch_events": 100000, "both_apply": 20000, "both_reject": 10000, "target:permutation-of-a": 10000,
 			"target:addressed:non-array:scalar": 500, "target:addressed:removed-element-absent": 300, "target:addressed:one-copy-fewer": 300,
 			"target:addressed:keyed-member-nonkey-field-changed": 300, "reject:set remove": 300, "reject:multiset remove": 300, "reject:no member": 100, "hunk_keyed_member": 1000,
-			"members_lacking_a_key": 1000, "bulky_member_cases": 1000, "high_multiplicity": 100, "constructed_hunks": 5000, "constructed_hunk_removes_and_adds_one_value": 1000},
+			"members_lacking_a_key": 1000, "bulky_member_cases": 1000, "high_multiplicity": 100, "constructed_hunks": 5000, "constructed_hunk_removes_and_adds_one_value": 1000, "alias_twin_removal": 500},
 		Assumptions: []string{
 			"reference semantics: {} hunk = every removed value present under the recursive set reading, added values inserted if absent, others untouched; [] hunk = by multiplicities; {\"k\":v} = the member object whose k fields equal v, rest of the path applied strictly inside it, any failure fails the patch",
 			"SetKeys inputs satisfy the stated precondition; key values are scalars; key tuples never permutations of each other (known finding F21 lives in C01)",
@@ -387,6 +387,23 @@ func init() {
 				target = map[string]any{"s": target, "other": []any{1.0, 1.0}}
 			}
 			tText := ref.ToJSON(target)
+			if i%10 == 8 && !bag {
+				// a set hunk that removes a value the target does not hold, while it holds the value of
+				// ANOTHER kind with the same digest (a number and the 8-byte string with its bit pattern):
+				// finding a member by digest is not yet finding the listed element. Only this sub-class is
+				// generated; additions of such twins and bag hunks are the Patch face of open finding F8 (C04).
+				f := aliasNumbers[(i/10)%len(aliasNumbers)]
+				str, _ := aliasString(f)
+				var held, listed any = f, str
+				if (i/10)%2 == 1 {
+					held, listed = str, f
+				}
+				tText = ref.ToJSON([]any{held, 7.0})
+				mk = func() jd.Diff {
+					return jd.Diff{{Path: jd.Path{jd.PathSet{}}, Remove: []jd.JsonNode{Node(listed)}}}
+				}
+				c.Feature("alias_twin_removal")
+			}
 			c.Input("target", tText)
 			d := mk()
 			c.Input("diff", ref.HunksString(Hunks(d)))
